@@ -3,7 +3,7 @@
 # quick one misses) on four scratch copies of /verif and /repo in parallel; /repo itself stays untouched.  Results go to
 # seeded/<id>/meta.json; afterwards: python3 bin/mx_table.py rebuilds seeded/MATRIX.md from them.
 export GOFLAGS=-mod=mod GOPROXY=off GOSUMDB=off
-groups=("C01 C05 C09 C13 C17" "C02 C06 C10 C14 C18" "C03 C07 C11 C15 C19" "C04 C08 C12 C16 C20")
+groups=("C01 C05 C13 C17" "C02 C06 C10 C14" "C03 C07 C11 C15" "C04 C08 C12 C16" "C09 C18 C19 C20")
 i=0
 for g in "${groups[@]}"; do
   d=/tmp/mxf$i; i=$((i+1))
